@@ -339,6 +339,13 @@ func (r *Run) branch(c value) bool {
 		if c.IsConst() {
 			return c.B
 		}
+		// already decided on this path: no fork, no decision recorded
+		if r.pcLits[c] {
+			return true
+		}
+		if r.pcLits[Not(c)] {
+			return false
+		}
 		return r.decide([]*Term{c, Not(c)}) == 0
 	}
 	panic(fmt.Sprintf("branch on %T", c))
